@@ -25,17 +25,29 @@ from pygopherd import initialization, logger  # noqa: E402
 
 TRACE = []
 FAULT_AT = [None]
+FAULT_CLASS = [0]
 
 
 class Injected(OSError):
     pass
 
 
+# the classes a failing start-up step can raise: every one of them must abort start-up
+CLASSES = [
+    lambda n: Injected(errno.EIO, "injected fault at " + n),
+    lambda n: PermissionError(errno.EPERM, "Operation not permitted: " + n),
+    lambda n: FileNotFoundError(errno.ENOENT, "No such file or directory: " + n),
+    lambda n: KeyError("name not found: " + n),
+    lambda n: ssl.SSLError(1, "injected SSL error at " + n),
+    lambda n: RuntimeError("injected fault at " + n),
+]
+
+
 def rec(name, *args):
     idx = len(TRACE)
     TRACE.append([name] + [str(a) for a in args])
     if FAULT_AT[0] is not None and idx == FAULT_AT[0]:
-        raise Injected(errno.EPERM, "injected fault at " + name)
+        raise CLASSES[FAULT_CLASS[0]](name)
 
 
 def mk(name, ret=None):
@@ -78,9 +90,10 @@ def install(tmp):
     ssl.SSLContext.load_cert_chain = fake_load
 
 
-def run(tls, chroot, setuid, setgid, fault, tmp):
+def run(tls, chroot, setuid, setgid, fault, tmp, fclass=0):
     del TRACE[:]
     FAULT_AT[0] = fault
+    FAULT_CLASS[0] = fclass
     root = os.path.join(tmp, "root")
     os.makedirs(root, exist_ok=True)
     conf = os.path.join(tmp, "c.conf")
@@ -123,7 +136,7 @@ def run(tls, chroot, setuid, setgid, fault, tmp):
                 server.server_close()
             except Exception:  # noqa
                 pass
-    return {"tls": tls, "chroot": chroot, "setuid": setuid, "setgid": setgid, "fault": fault,
+    return {"tls": tls, "chroot": chroot, "setuid": setuid, "setgid": setgid, "fault": fault, "fclass": fclass,
             "trace": [t for t in TRACE], "raised": raised, "root_after": root_after}
 
 
@@ -157,8 +170,9 @@ def main():
                     for sg in (False, True):
                         r0 = run(tls, chroot, su, sg, None, tmp)
                         rows.append(r0)
-                        for i in range(len(r0["trace"])):
-                            rows.append(run(tls, chroot, su, sg, i, tmp))
+                        for k in range(len(CLASSES)):
+                            for i in range(len(r0["trace"])):
+                                rows.append(run(tls, chroot, su, sg, i, tmp, k))
     finally:
         import shutil
         os.chdir = real_chdir
